@@ -27,6 +27,8 @@ type fieldSpec struct {
 type typeSpec struct {
 	name   string
 	fields []fieldSpec
+	idLast bool // struct-backed form declares the ID field after the others
+	noFrom bool // soft form leaves FromType of its relationships empty
 }
 
 func (t typeSpec) fieldNames() []string {
@@ -51,7 +53,11 @@ func (t typeSpec) softType() jsonapi.Type {
 	typ := jsonapi.Type{Name: t.name}
 	for _, f := range t.fields {
 		if f.rel {
-			_ = typ.AddRel(jsonapi.Rel{FromType: t.name, FromName: f.name, ToOne: f.toOne, ToType: f.target, ToName: f.inv})
+			from := t.name
+			if t.noFrom {
+				from = ""
+			}
+			_ = typ.AddRel(jsonapi.Rel{FromType: from, FromName: f.name, ToOne: f.toOne, ToType: f.target, ToName: f.inv})
 		} else {
 			_ = typ.AddAttr(jsonapi.Attr{Name: f.name, Type: f.code, Nullable: f.nullable})
 		}
@@ -77,10 +83,14 @@ func goTypeOf(code int, nullable bool) reflect.Type {
 // structType builds the struct type of the specification: ID first, then one
 // exported field per attribute / relationship.
 func (t typeSpec) structType() reflect.Type {
-	fs := []reflect.StructField{{
+	idf := reflect.StructField{
 		Name: "ID", Type: reflect.TypeOf(""),
 		Tag: reflect.StructTag(fmt.Sprintf(`json:"id" api:%q`, t.name)),
-	}}
+	}
+	fs := []reflect.StructField{}
+	if !t.idLast {
+		fs = append(fs, idf)
+	}
 	for i, f := range t.fields {
 		sf := reflect.StructField{Name: fmt.Sprintf("F%d", i)}
 		if f.rel {
@@ -99,6 +109,9 @@ func (t typeSpec) structType() reflect.Type {
 			sf.Tag = reflect.StructTag(fmt.Sprintf(`json:%q api:"attr"`, f.name))
 		}
 		fs = append(fs, sf)
+	}
+	if t.idLast {
+		fs = append(fs, idf)
 	}
 	return reflect.StructOf(fs)
 }
@@ -119,7 +132,11 @@ func tagSafe(s string) bool {
 func (t typeSpec) gType() string { return gType(t.softType()) }
 
 func (t typeSpec) gDesc() string {
-	it := []string{fmt.Sprintf("(mkSField \"ID\" (GTAttr 1 false) \"id\" %s true)", gStr(t.name))}
+	idf := fmt.Sprintf("(mkSField \"ID\" (GTAttr 1 false) \"id\" %s true)", gStr(t.name))
+	it := []string{}
+	if !t.idLast {
+		it = append(it, idf)
+	}
 	for i, f := range t.fields {
 		if f.rel {
 			api := "rel," + f.target
@@ -134,6 +151,9 @@ func (t typeSpec) gDesc() string {
 		} else {
 			it = append(it, fmt.Sprintf("(mkSField %s (GTAttr %s %s) %s \"attr\" true)", gStr(fmt.Sprintf("F%d", i)), gZ(f.code), gBool(f.nullable), gStr(f.name)))
 		}
+	}
+	if t.idLast {
+		it = append(it, idf)
 	}
 	return gList(it)
 }
@@ -157,7 +177,7 @@ func ptrTo(v any) any {
 
 var dictStrings = []string{"", "a", "abc", "\x00", "a\x00b", "é", "日本語", "😀", "<>&", " ", "\"q\\", "a b", "null", "<nil>", "</script>", "ab", "b",
 	// texts that look like JSON escapes once printed
-	"\\u0026", "\\n", "\u2028", "a\\"}
+	"\\u0026", "\\n", "\u2028", "a\\", "caf\ufffd", "\ufffd"}
 
 func utcTime(sec int64, nsec int64) time.Time { return time.Unix(sec, nsec).UTC() }
 
@@ -168,6 +188,8 @@ var dictTimes = []time.Time{
 	time.Time{},
 	// the same instants as the two zoned entries, in UTC
 	utcTime(1582979696, 0), utcTime(1582979696, 7),
+	// the last representable year, in a zone west of UTC
+	time.Date(9999, 12, 31, 23, 30, 0, 123456789, time.FixedZone("", -2*3600)),
 }
 
 var dictBytes = [][]byte{{}, {0}, {1, 2}, {2, 1}, {1, 2, 3}, {255}, {97}, {97, 98, 99}, {1}, {1, 2, 0}}
@@ -276,7 +298,7 @@ func randValue(r *rng, code int, nullable bool, allowUntyped bool) any {
 	return ptrTo(v)
 }
 
-var dictIDs = []string{"", "1", "2", "10", "abc", "a b", "é", "x\"y", "<1>", "😀", "0", "id", "a\x01b\x7f", "t\tn\nq"}
+var dictIDs = []string{"", "1", "2", "10", "abc", "a b", "é", "x\"y", "<1>", "😀", "0", "id", "a\x01b\x7f", "t\tn\nq", " lead", "trail ", "007", "a,b", "."}
 
 func randIDs(r *rng) []string {
 	n := pick(r, []int{0, 0, 1, 2, 3, 5, 12, 20})
@@ -290,7 +312,7 @@ func randIDs(r *rng) []string {
 	return out
 }
 
-var fieldNamePool = []string{"a", "b", "ab", "name", "n1", "x-y", "x_y", "é", "A", "meta", "type", "links", "z", "zz", "a.b"}
+var fieldNamePool = []string{"a", "b", "ab", "name", "n1", "x-y", "x_y", "é", "A", "meta", "type", "links", "z", "zz", "a.b", "a,b"}
 
 // randTypeSpec draws a type with up to maxFields distinct field names.
 func randTypeSpec(r *rng, name string, maxFields int, targets []string) typeSpec {
@@ -309,13 +331,15 @@ func randTypeSpec(r *rng, name string, maxFields int, targets []string) typeSpec
 		if r.chance(1, 4) {
 			f := fieldSpec{rel: true, name: nm, toOne: r.bool(), target: pick(r, targets)}
 			if r.chance(1, 3) {
-				f.inv = pick(r, fieldNamePool)
+				f.inv = pick(r, fieldNamePool[:15]) // the api tag is comma-separated
 			}
 			t.fields = append(t.fields, f)
 		} else {
 			t.fields = append(t.fields, fieldSpec{name: nm, code: 1 + r.intn(14), nullable: r.bool()})
 		}
 	}
+	t.idLast = len(t.fields) > 0 && r.chance(1, 4)
+	t.noFrom = r.chance(1, 5)
 	return t
 }
 
